@@ -36,6 +36,10 @@ fn main() {
             let src = args.get(2).unwrap_or_else(|| usage());
             let argtxt = args.get(3).cloned().unwrap_or_else(|| "()".to_string());
             let opt = args.iter().any(|a| a == "--opt");
+            // --counter N : start the fresh-name counter at N
+            if let Some(n) = arg_after(&args, "--counter").and_then(|v| v.parse::<usize>().ok()) {
+                chialisp::compiler::gensym::ARGNAME_CTR.store(n, std::sync::atomic::Ordering::SeqCst);
+            }
             if args.iter().any(|a| a == "--symbols") {
                 match sut::compile_lib_sym(src, opt, &[], "*verif*.clsp") {
                     Ok((_, syms)) => {
